@@ -265,7 +265,7 @@ func (e *Engine) Bin(world string, race bool) string {
 // ---- sampling
 
 var ops = []string{"echoJSON", "echoJSON", "echoJSONStream", "echoForm", "echoMultipart", "echoStream", "variants", "secure", "secure2", "echoWild", "echoParams", "echoParams", "echoShapes", "echoShapes", "echoSeg", "echoOpt", "echoAny", "echoItem", "echoItem", "echoItemRecent"}
-var invalids = []string{"pattern", "regexp2", "multipleOf", "maxLength", "enum", "tagpattern", "maxprops", "maxItems", "unique", "notelong", "aliaslong", "retriesbig", "ratioedge", "subnum", "sublabel", "attrlong", "attrsempty"}
+var invalids = []string{"pattern", "regexp2", "multipleOf", "maxLength", "enum", "tagpattern", "maxprops", "maxItems", "unique", "notelong", "aliaslong", "retriesbig", "ratioedge", "subnum", "sublabel", "attrlong", "attrsempty", "treelabel", "treelong", "twigsize", "twiglabel"}
 var readers = []string{"bytes", "bytes", "onebyte", "dataerr", "half"}
 var creds = []string{"header", "basic+query", "bearer", "header", "none", "wrong"}
 
@@ -276,7 +276,7 @@ var hostileTexts = []string{"", " ", "1 ", " 1", "+1", "-", "--1", "1.0", "1e3",
 	"2021-01-02 03:04:05", "12", "delta", "Alpha", "role,admin,name", "role,admin,name,", "role", "role,admin,role,root", "name,n,role,r,x", strings.Repeat("1", 5000), strings.Repeat("a", 70000)}
 
 // rawEscapes go on the wire as they are: escapes that decode to nothing sensible.
-var rawEscapes = []string{"%zz", "%", "%4", "a%00b", "%C0%AF", "%FF%FE", "%2", "1%"}
+var rawEscapes = []string{"%zz", "%", "%4", "a%00b", "%C0%AF", "%FF%FE", "%2", "1%", "%41%4", "a%2Cb%3", "%41%", "%41%zz", "%%", "%4%41", "%41%42%", "x%3Dy%2"}
 
 // rawSegments go into the path as they are: escaped slashes, bytes net/url would have escaped, dot segments,
 // literal slashes (which change the number of segments), escaped delimiters.
@@ -382,6 +382,10 @@ func sampleMangle(rng *rand.Rand, targets []string) *Fault {
 			text = hostileTexts[rng.Intn(len(hostileTexts))]
 		}
 		f.Val = text
+		if strings.HasPrefix(t, "cookie") && rng.Intn(3) == 0 {
+			// cookie values are percent-decoded by ogen itself: broken, truncated and stacked escapes
+			f.Val = rawEscapes[rng.Intn(len(rawEscapes))]
+		}
 	}
 	return f
 }
